@@ -14,7 +14,12 @@ WHOLE resulting PSBT (signature bytes included) and the returned count are compa
 case and on adversarial variants (existing signatures, re-signing, wrong-parity / duplicated / foreign derivation
 entries, uncompressed keys, descriptors holding one key twice). `sign.struct` is the same comparison with signature
 values blanked (count, set of slots, frame: fully determined by the theorems); `sign.trace` compares the model's trace
-with the slots embit changed (count = number of distinct slots of the trace, changed slots are trace slots)."""
+with the slots embit changed (count = number of distinct slots of the trace, changed slots are trace slots).
+
+C02Y (Props/C02Y.lean): the `SigLaws` hypothesis of C02X is discharged for the environment the driver runs (`opsOf`:
+C07 signers + C09/C10 key models over one abstract curve, bridged between the two curve records) relative to the curve
+laws; `sign.verify` decides the theorem's conclusion (standards' verifiers, consensus digest) for every write of the
+model's trace over the executable secp256k1."""
 import io
 import json
 from collections import Counter, OrderedDict
@@ -31,7 +36,7 @@ from embit.psbt import PSBT
 from embit.psbtview import PSBTView
 
 PROP = "C02"
-MODS = ["EmbitModel.Props.C02", "EmbitModel.Props.C02X"]
+MODS = ["EmbitModel.Props.C02", "EmbitModel.Props.C02X", "EmbitModel.Props.C02Y"]
 H = gw.H
 AUTH = [None, 0, 1, 2, 3, 0x81, 0x82, 0x83]
 
@@ -226,6 +231,11 @@ def model_compare(c, b, signer, authorised, rec0, result):
     c.expect(line, impl, info, proven=False, op="sign.run", canon=strip_ntrace)
     c.expect("sign.trace %s %s %s" % (st, a, hx(b)), trace, dict(rec0, op="sign.trace"), proven=True, op="sign.trace",
              canon=canon_trace(changed))
+    # C02Y: the conclusion of `added_sigs_valid_standards` decided for every write of the model's trace over the executable
+    # secp256k1 (SEC 1 / BIP340 verification under the slot's key against PSBT.sighash of the PSBT handed in): proved to
+    # hold relative to the curve laws; evaluated here it exercises that assumption for the driver's curve record
+    c.expect("sign.verify %s %s %s" % (st, a, hx(b)), "none" if result is None else "ok 0", dict(rec0, op="sign.verify"),
+             proven=False, op="sign.verify", canon=lambda o: " ".join(o.split(" ")[:2]))
 
 
 def canon_stream(ans):
@@ -687,7 +697,11 @@ def run(tier, seed):
                      "wallet keys and scripts are built with embit's key classes as test data; script codes and expected sets are built here",
                      "sign.run / sign.view instantiate the proved model with the driver's executable secp256k1, RFC 6979 + grinding, BIP340, "
                      "BIP32 and taproot-tweak models of C07/C09/C10 (each tied to embit by its own property's check)",
-                     "signers are private key objects of the modelled kinds (ec.PrivateKey, private bip32.HDKey, descriptor Key, Descriptor)"]
+                     "signers are private key objects of the modelled kinds (ec.PrivateKey, private bip32.HDKey, descriptor Key, Descriptor)",
+                     "C02Y: the driver's environment is definitionally `opsOf secpOps realHashes` (theorem driver_ops_eq); validity of every "
+                     "added signature (SEC 1 / BIP340 verification against the consensus digest) is proved of it relative to EcLaws + InfUnique "
+                     "of the curve record — that secp256k1 as implemented satisfies these laws is the remaining mathematical assumption, "
+                     "exercised on every case by sign.verify (the theorem's conclusion decided per write) and by the independent verifier"]
     c.build_and_audit()
     explore(c, 70 if tier == "quick" else 1200)
     explore_adversarial(c, 150 if tier == "quick" else 2000)
